@@ -98,6 +98,14 @@ class Seg:
         return s
 
 
+def norm_cond(c, pol):
+    """(tree, polarity) with leading negations folded into the polarity"""
+    while isinstance(c, tuple) and c and c[0] == 'un' and c[1] == 'Not':
+        c = peel(c[2])
+        pol = not pol
+    return c, pol
+
+
 def subst(t, f):
     """bottom-up rewriting: f(node) returns a replacement or None"""
     if not isinstance(t, tuple) or not t:
@@ -198,7 +206,7 @@ def seq_of_iter(facts, body, t, level=0):
                 s = s.copy()
                 for i in s.flat():
                     if i.elem is not None and i.kind != 'opaque':
-                        i.conds.append((apply_fn(facts, a[1], (i.elem,)), True))
+                        i.conds.append(norm_cond(peel(apply_fn(facts, a[1], (i.elem,))), True))
                 out.append(s)
             return out
         if n == 'filter_map' and len(a) == 2:
@@ -480,7 +488,11 @@ def seq_of_var(facts, body, local):
                 if len(ins) == 1 and ins[0].kind == 'one' and ins[0].what is None:
                     r = Seg('each', src=src, elem=ins[0].elem, conds=oc + s.conds + ins[0].conds, term=ins[0].term, body=body, level=level)
                 else:
-                    r = Seg('nest', src=src, conds=oc + s.conds, inner=ins, term=members[0][0], body=body, level=level)
+                    # conditions shared by every inner segment guard the whole iteration: hoist them
+                    common = [c for c in (ins[0].conds if ins else []) if all(c in i.conds for i in ins)]
+                    for i in ins:
+                        i.conds = [c for c in i.conds if c not in common]
+                    r = Seg('nest', src=src, conds=oc + s.conds + common, inner=ins, term=members[0][0], body=body, level=level)
                 r.loop = lp
                 out.append(r)
         return out
